@@ -6,6 +6,7 @@ pub mod c01;
 pub mod c02;
 pub mod c03;
 pub mod c04;
+pub mod c06;
 pub mod c10;
 pub mod c11;
 pub mod c12;
@@ -16,5 +17,5 @@ pub mod c16;
 pub mod c18;
 
 pub fn all() -> Vec<PropDef> {
-    vec![c01::def(), c02::def(), c03::def(), c04::def(), c10::def(), c11::def(), c12::def(), c13::def(), c14::def(), c15::def(), c16::def(), c18::def()]
+    vec![c01::def(), c02::def(), c03::def(), c04::def(), c06::def(), c10::def(), c11::def(), c12::def(), c13::def(), c14::def(), c15::def(), c16::def(), c18::def()]
 }
